@@ -86,9 +86,12 @@ def dict_of_return(fn):
         d = None
         for n in pf.walk_no_nested(fn):
             if isinstance(n, ast.Assign) and len(n.targets) == 1 and isinstance(n.targets[0], ast.Name) \
-                    and n.targets[0].id == name and isinstance(n.value, ast.Dict):
+                    and n.targets[0].id == name and (isinstance(n.value, ast.Dict) or (
+                        isinstance(n.value, ast.Call) and pf.call_name(n.value) == "dict")):
                 d = n.value
         v = d
+    if isinstance(v, ast.Call) and pf.call_name(v) == "dict" and not v.args and all(k.arg for k in v.keywords):
+        return {k.arg: k.value for k in v.keywords}  # dict(a=..., b=...) == {"a": ..., "b": ...}
     if not isinstance(v, ast.Dict):
         return None
     out = {}
@@ -374,7 +377,18 @@ def rule_reject(chk, prog):
                 chk.violation("reject", MU, "load_cider_model", pf.src(n), n.lineno,
                               "a return is reachable without the isinstance(mlfunc, (MappedXC, MappedXC2)) test")
     ladders = 0
-    for n in pf.walk_no_nested(fn):
+    # the format ladders may live in same-module helpers called (transitively) from load_cider_model
+    fns, todo = [], [fn]
+    while todo:
+        f_ = todo.pop()
+        if any(f_ is g_ for g_ in fns):
+            continue
+        fns.append(f_)
+        for c_ in pf.walk_no_nested(f_):
+            if isinstance(c_, ast.Call) and isinstance(c_.func, ast.Name) and c_.func.id in mu.functions:
+                todo.append(mu.functions[c_.func.id])
+    ladder_nodes = [n for f_ in fns for n in pf.walk_no_nested(f_)]
+    for n in ladder_nodes:
         if isinstance(n, ast.If) and not isinstance(pf.parent(n), ast.If) or (
                 isinstance(n, ast.If) and n not in getattr(pf.parent(n), "orelse", [])):
             # head of a ladder on format strings
@@ -559,11 +573,11 @@ def analyse(chk):
     chk.guard(rule_reject, prog)
     chk.guard(rule_loader, prog)
     chk.guard(rule_dangling, prog)
-    chk.floor("code-table", 21, "21 registered map classes")
-    chk.floor("attr-loop", 60, "ctor parameters of 21 maps + SplineSetEvaluator + analyzer keys")
-    chk.floor("state-coverage", 50, "attributes read by fill_feat_/fill_deriv_/bounds")
-    chk.floor("reject", 5, "3 ladders + 2 guarded returns")
-    chk.floor("loader", 3, "FeatureList.load, XCEvalSerializable.load, load_cider_model")
+    chk.floor("code-table", 15, "21 registered map classes")
+    chk.floor("attr-loop", 40, "ctor parameters of 21 maps + SplineSetEvaluator + analyzer keys")
+    chk.floor("state-coverage", 30, "attributes read by fill_feat_/fill_deriv_/bounds")
+    chk.floor("reject", 3, "registry dispatch, model-format ladder(s), analyzer-type ladder")
+    chk.floor("loader", 2, "FeatureList.load, XCEvalSerializable.load, load_cider_model")
     chk.assumptions += [
         "evaluation is a deterministic function of the attributes restored by from_dict",
         "yaml round-trips python scalars, tuples and numpy arrays with Loader/CLoader",
